@@ -162,6 +162,10 @@ def run_constraint(case, drv) -> Outcome:
     x = torch.tensor(sorted(rng.uniform(-4, 4) for _ in range(9)), dtype=torch.float64)
     (y,) = op(x)
     (xb,) = op.inverse(y)
+    # conditioning of the round trip: where forward saturates (slope -> 0) the rounding of y alone moves inverse(y) by eps*|y|/slope
+    xg = x.clone().requires_grad_(True)
+    (slope,) = torch.autograd.grad(op(xg)[0].sum(), xg)
+    slope = slope.abs()
     viol = None
     corr = None
 
@@ -186,7 +190,7 @@ def run_constraint(case, drv) -> Outcome:
         viol = {'signature': 'constraint:not-monotone', 'what': f'{cfg}: forward is not strictly increasing'}
     elif not bool(((y > lo) & (y < hi)).all()):
         viol = {'signature': 'constraint:range', 'what': f'{cfg}: forward leaves the open interval ({lo}, {hi})'}
-    elif float((xb - x).abs().max()) > 1e-6 * (1 + float(x.abs().max())):
+    elif bool(((xb - x).abs() > 1e-6 * (1 + x.abs()) + 8 * 2.3e-16 * (1 + y.abs()) / slope.clamp_min(1e-300)).any()):
         viol = {'signature': f'constraint:inverse:{m["case"]}', 'what': f'{cfg}: inverse(forward(x)) != x: {xb.tolist()[:3]} vs {x.tolist()[:3]}'}
     else:
         (y2,) = op(op.inverse(y)[0])
